@@ -44,6 +44,24 @@ fn test(case: &Case, st: &mut Stats) -> TestResult {
                 via_try,
                 got
             );
+            // the field read from the front of a longer buffer (how the header decoder and callers
+            // holding a packet use it): only the first two bytes matter
+            for extra in [&[0xffu8][..], &[0x00, 0x08], &[0x00, 0x00, 0x21, 0x12, 0xA4, 0x42, 1, 2, 3, 4, 5, 6, 7, 8, 9, 10, 11, 12]] {
+                let mut long = bytes.to_vec();
+                long.extend_from_slice(extra);
+                let g = guard(|| MessageType::from_bytes(&long)).map_err(|p| Fail::new("c19-panic", p))?;
+                let t = guard(|| MessageType::try_from(&long[..])).map_err(|p| Fail::new("c19-panic", p))?;
+                ensure!(
+                    format!("{:?}", g) == format!("{:?}", got) && format!("{:?}", t) == format!("{:?}", got),
+                    "c19-decode",
+                    "type field {:#06x} followed by {} more bytes: from_bytes gives {:?}, try_from gives {:?}, the two bytes alone give {:?}",
+                    v,
+                    extra.len(),
+                    g,
+                    t,
+                    got
+                );
+            }
             match refstun::type_decode(v) {
                 None => {
                     st.class("type value with top bits set");
